@@ -39,6 +39,34 @@ def gen_re(rng, depth=0, chars=b"abrefs/-_.0123456789htmnv"):
     return ("c", rng.choice(chars))
 
 
+def go_runes(b):
+    """The code points Go's regexp matcher sees in a subject (utf8.DecodeRune): each byte of an invalid sequence is U+FFFD."""
+    out, i, n = [], 0, len(b)
+    while i < n:
+        b0 = b[i]
+        if b0 < 0x80:
+            out.append(b0)
+            i += 1
+            continue
+        need = 1 if 0xC2 <= b0 <= 0xDF else 2 if 0xE0 <= b0 <= 0xEF else 3 if 0xF0 <= b0 <= 0xF4 else 0      # continuation bytes
+        lo1 = 0xA0 if b0 == 0xE0 else 0x90 if b0 == 0xF0 else 0x80
+        hi1 = 0x9F if b0 == 0xED else 0x8F if b0 == 0xF4 else 0xBF
+        if need and i + need < n and lo1 <= b[i + 1] <= hi1 and all(0x80 <= b[i + k] <= 0xBF for k in range(2, need + 1)):
+            cp = b0 & (0x1F if need == 1 else 0x0F if need == 2 else 0x07)
+            for k in range(1, need + 1):
+                cp = (cp << 6) | (b[i + k] & 0x3F)
+            out.append(cp)
+            i += need + 1
+        else:
+            out.append(0xFFFD)
+            i += 1
+    return out
+
+
+def go_str(b):
+    return "".join(map(chr, go_runes(b)))
+
+
 def lit_re(s):
     e = None
     for c in reversed(s):
@@ -143,6 +171,12 @@ def gen_refs(rng):
     return sorted(x for x in names if not x.endswith(b"/") and b"//" not in x)
 
 
+def slashed(rng, e):
+    """In gitconfig a regexp is taken as written: `/RE/` (the command-line spelling of --include=/RE/) is there a regexp that
+    begins and ends with a slash — it matches no reference name."""
+    return ("&", ("c", 47), ("&", e, ("c", 47))) if rng.random() < 0.12 else e
+
+
 def gen_groupdefs(rng, deep=False):
     """Returns (defs for the model: list of (sym, [(kind, value)]), config records for fakegit)."""
     defs = []
@@ -173,9 +207,9 @@ def gen_groupdefs(rng, deep=False):
             elif k < 0.65:
                 ents.append(("x", rng.choice([b"refs/heads/feature", b"refs/tags/v1", b"refs/remotes/up", b"refs/heads/main"])))
             elif k < 0.85:
-                ents.append(("I", gen_re_refs(rng)))
+                ents.append(("I", slashed(rng, gen_re_refs(rng))))
             else:
-                ents.append(("X", gen_re_refs(rng)))
+                ents.append(("X", slashed(rng, gen_re_refs(rng))))
         if ents and rng.random() < 0.15:
             # the same (key, value) listed twice with a rule of the opposite effect in between (e.g. ~/.gitconfig and
             # .git/config both carrying `include = refs/tags`): every entry counts, in order
@@ -244,7 +278,16 @@ def gen_re_refs(rng):
         # patterns the user anchored by hand: ^A|B$, ^A$, ^A, B$, and a literal dollar at the end
         a = rng.choice([b"refs/heads/main", b"refs/heads/a", b"refs/tags/v1", b"refs/foo", b"refs/he"])
         b = rng.choice([b"refs/tags/v1", b"refs/foo", b"refs/stash", b"refs/tags/b", b"refs/heads/a$"])
-        form = rng.randrange(6)
+        form = rng.randrange(10)
+        if form == 6:
+            # anchored at the start by hand, and ending INSIDE a quotation whose last character is a dollar: ^refs/heads/.*\Q$
+            return ("&", ("^",), ("&", lit_re(rng.choice([b"refs/heads/", b"refs/"])), ("&", ("*", (".",)), ("Q", b"$", False))))
+        if form == 7:
+            return ("&", ("^",), ("Q", b"refs/heads/a$", False))                                     # ^\Qrefs/heads/a$
+        if form == 8:
+            return ("|", ("&", ("^",), ("&", lit_re(a), ("$",))), ("&", ("^",), ("&", lit_re(b), ("$",))))     # ^A$|^B$
+        if form == 9:
+            return ("&", ("^",), ("&", ("[", False, [(114, 114)]), ("&", lit_re(b"efs/heads/a"), ("[", False, [(36, 36)]))))   # ^[r]efs/heads/a[$]
         if form == 0:
             return ("|", ("&", ("^",), lit_re(a)), ("&", lit_re(b), ("$",)))
         if form == 1:
@@ -321,6 +364,13 @@ def gen_options(rng, defs, refs, maxlen=4):
         for pat in pair:
             cli += ["--include" if pol else "--exclude", os.fsdecode(pat)]
             toks.append(("+" if pol else "-") + "p:" + vlib.hx(pat))
+    if rng.random() < 0.08:
+        f = rng.choice(["--tags", "--branches", "--no-tags", "--remotes", "--no-branches", "--stash", "--notes"])
+        p, kind, pat = SC.FLAG_OPTS[f]
+        for val, pol in rng.choice([[("=false", not p), ("", p)], [("", p), ("=false", not p), ("", p)], [("=false", not p), ("=true", p)],
+                                    [("=0", not p), ("=false", not p), ("", p)]]):
+            cli.append(f + val)
+            toks.append(("+" if pol else "-") + ("r:" + re_enc(lit_re(pat)) if kind == "exact" else "p:" + vlib.hx(pat)))
     for _ in range(rng.choice([0, 1, 1, 2, 2, 3, maxlen])):
         k = rng.random()
         pol = rng.random() < 0.6
@@ -328,8 +378,15 @@ def gen_options(rng, defs, refs, maxlen=4):
         opt = "--include" if pol else "--exclude"
         if k < 0.25:
             f = rng.choice(sorted(SC.FLAG_OPTS))
-            cli.append(f)
             p, kind, pat = SC.FLAG_OPTS[f]
+            bv = rng.random()
+            if bv < 0.25:
+                # an explicit boolean value: =false (0, f, F, FALSE, False) turns the option into its opposite, for THIS
+                # occurrence only — the same option may follow again with another value
+                f, p = f + "=" + rng.choice(["false", "0", "f", "F", "FALSE", "False"]), not p
+            elif bv < 0.35:
+                f = f + "=" + rng.choice(["true", "1", "t", "T", "TRUE", "True"])
+            cli.append(f)
             if kind == "exact":
                 toks.append(("+" if p else "-") + "r:" + re_enc(lit_re(pat)))
             else:
